@@ -5,3 +5,18 @@ _P["tolerances"]["model correspondence (lineinit, genpos)"] = "as in C01: 4 × t
 _P["level_text"] += (" GeodesicLine::GenPosition (reduced length, geodesic scales, area) is modelled in Lean (Model/GeodLine.lean) and executed against the "
                      "implementation on every direct segment; theorem line_lengths_agree: over ℝ, GenPosition (direct interface) and Geodesic::Lengths "
                      "(inverse interface) return the same s12, m12, M12, M21 on the same arc.")
+
+# the harness compiles $GV_REPO/tools/GeodSolve.cpp into itself (harness/C01_tool.hpp): include path of the usage stub, and a cache key
+# that depends on the tool's text (the generic key covers only the library and the harness sources)
+import hashlib as _hl, os as _os
+def _tools_digest():
+    h = _hl.sha256()
+    p = _os.path.join(_os.environ.get("GV_REPO", "/repo"), "tools", "GeodSolve.cpp")
+    try:
+        h.update(open(p, "rb").read())
+    except OSError:
+        h.update(b"missing")
+    return h.hexdigest()[:16]
+_verif = _os.path.dirname(_os.path.dirname(_os.path.dirname(_os.path.abspath(__file__))))
+_P["harnesses"] = [dict(name="C03", procs_quick=4, procs_thorough=16,
+                        extra=["-I" + _os.path.join(_verif, "harness", "C01_tools"), "-DGV_TOOLS_DIGEST=0x" + _tools_digest()])]
